@@ -19,7 +19,7 @@ Not decided: equality of on-disk bytes with the callback's values (toml / fs are
 from . import layer_env_common as L
 from .lib.effects import Effects, outcomes, MUTATING, REMOVING
 from .lib.guards import conditions
-from .lib.paths import LayerPaths, cls_str, strip
+from .lib.paths import sbom_formats_covered, LayerPaths, cls_str, strip
 from .lib.value import vstr, walk
 
 HL = 'libcnb::layer::trait_api::handling::handle_layer'
@@ -128,7 +128,7 @@ def run(ctx, rep):
                           'callbacks %s can run on the %s arm' % (sorted(cbs_may), r))
                 if r == 'Recreate':
                     p_rm = [pos('REMOVE(DIR)'), pos('REMOVE(TOML)')]
-                    sb = [e for e in must if e.kind == 'REMOVE_FILE' and kl(e) and kl(e)[0] == 'SBOM' and e.forall is not None]
+                    sb = [e for e in must if e.kind == 'REMOVE_FILE' and kl(e) and kl(e)[0] == 'SBOM']
                     rep.check(min(p_rm) >= 0 and max(p_rm) < p_mk and bool(sb), 'R1', tag + '/delete-first', where,
                               'DIR, TOML and SBOMs removed before re-creation', 'Recreate does not delete the old layer first: %s' % seq)
             elif r == 'Update':
@@ -252,10 +252,10 @@ def run(ctx, rep):
     rep.analysed(rs)
     lp = LayerPaths(lambda v: v[0] == 'param' and v[1] == rs.path and v[2] == 0, lambda v: v[0] == 'param' and v[1] == rs.path and v[2] == 1)
     must = E.expand(rs, 'must')
-    rm = [e for e in must if e.kind == 'REMOVE_FILE' and e.forall is not None and (lp.classify(e.path) or (None,))[0] == 'SBOM']
+    rm = [e for e in must if e.kind == 'REMOVE_FILE' and (lp.classify(e.path) or (None,))[0] == 'SBOM']
     wr = [e for e in must if e.kind == 'WRITE' and e.forall is not None and (lp.classify(e.path) or (None,))[0] == 'SBOM']
     all_variants = sorted(v['name'] for v in prog.adt('libcnb_data::sbom::SbomFormat')['variants'])
-    rm_ok = bool(rm) and sorted(x[2] for x in walk(rm[0].forall) if x[0] == 'agg' and (x[1] or '').endswith('SbomFormat')) == all_variants
+    rm_ok = sorted(sbom_formats_covered(rm, lp.classify)) == all_variants
     rep.check(rm_ok, 'R4', 'replace_sboms/remove-all-formats', '%s:%d' % (rs.file, rs.line), 'old SBOM files of every format removed',
               'replace_layer_sboms does not remove the old SBOM of every format')
     w_ok = False
